@@ -3,6 +3,8 @@
 package dag
 
 import (
+	"context"
+	"errors"
 	"fmt"
 
 	"grog/internal/label"
@@ -204,4 +206,36 @@ func VerifC19_T_ladder() {
 	sym.Assert(sym.Calls("(*grog/internal/dag.DirectedTargetGraph).GetDescendants") <= bound, "C19.T2.descendants-polynomial-on-ladder")
 	sym.Assert(sym.Calls("(*grog/internal/dag.DirectedTargetGraph).GetAncestors") <= bound, "C19.T2.ancestors-polynomial-on-ladder")
 	sym.Reach("C19.T.ladder")
+}
+
+// T5: failure propagation in the walker (keep-going: every descendant of the failed node is
+// cancelled) on ladders: the whole walk stays within a quadratic amount of work; an
+// implementation that cancels once per path needs 2^depth steps.
+func VerifC19_T_walker_failure_ladder() {
+	depth := 4 + sym.Choice("depth", tier(9, 11))
+	nodes, g := ladder(depth)
+	for _, n := range nodes {
+		n.Select()
+	}
+	v, e := 2*depth, 4*(depth-1)
+	bound := (v + e) * (v + e)
+	boom := errors.New("target failed")
+	ran := 0
+	w := NewWalker(g, func(ctx context.Context, node model.BuildNode) (CacheResult, error) {
+		ran++
+		if node == nodes[0] {
+			return CacheMiss, boom
+		}
+		return CacheHit, nil
+	}, false)
+	s0 := sym.Steps()
+	_, err := w.Walk(context.Background())
+	sym.Quiesce()
+	s1 := sym.Steps()
+	sym.NoteInt("steps-walk", s1-s0)
+	sym.Assert(err == nil, "C19.T5.walk-returns")
+	// only the two roots run: everything else depends on the failed root
+	sym.Assert(ran == 2, "C19.T5.descendants-of-the-failure-do-not-run")
+	sym.Assert(s1-s0 <= 40*bound, "C19.T5.failure-propagation-work-polynomial")
+	sym.Reach("C19.T.walker-failure")
 }
